@@ -129,24 +129,25 @@ static unsigned mouse_bit(int type)
 }
 
 #define ASAN_FILL 0xbebebebe
+static int act_level;     /* how many handlers' calls are running inside each other */
 static int on_wkey(TickitWindow *w, TickitEventFlags fl, void *info, void *data)
 {
   struct hdata *h = data;
   if(h->depth > 6) return 0;
-  h->depth++;
+  h->depth++; act_level++;
   w_run_actions(h->actions, h->depth);
-  h->depth--;
+  h->depth--; act_level--;
   return h->ret;
 }
-/* the window whose DESTROY handlers are running (innermost), or -1 */
-static int dying_win = -1;
+/* the window whose DESTROY handler is running (innermost) and the nesting level of that handler's own calls, or -1 */
+static int dying_win = -1, dying_level = -1;
 static int on_wdestroy_calls(TickitWindow *w, TickitEventFlags fl, void *info, void *data)
 {
   if(!(fl & TICKIT_EV_DESTROY)) return 0;
-  int was = dying_win;
-  dying_win = widx(w);
+  int was = dying_win, was_level = dying_level;
+  dying_win = widx(w); dying_level = act_level + 1;
   int r = on_wkey(w, fl, info, data);
-  dying_win = was;
+  dying_win = was; dying_level = was_level;
   return r;
 }
 static int on_wmouse(TickitWindow *w, TickitEventFlags fl, void *_info, void *data)
@@ -158,9 +159,9 @@ static int on_wmouse(TickitWindow *w, TickitEventFlags fl, void *_info, void *da
     sh->uninit = 1;
   if(!(h->mask & mouse_bit(info->type))) return 0;
   if(h->depth > 6) return 0;
-  h->depth++;
+  h->depth++; act_level++;
   w_run_actions(h->actions, h->depth);
-  h->depth--;
+  h->depth--; act_level--;
   return h->ret;
 }
 
@@ -203,7 +204,7 @@ static void w_op(const char *op, int depth)
   /* a DESTROY handler is handed its window: what it does WITH THAT WINDOW (other than touching its reference count,
    * closing it or creating windows below it) is covered by the handler's contract, not by a reference of the client's:
    * such calls are made but are not part of the trace that the discipline judges */
-  int own = dying_win >= 0 && strchr("shtxgyqzPpNS", op[0]) && atoi(op + 1) == dying_win;
+  int own = dying_win >= 0 && act_level == dying_level && strchr("shtxgyqzPpNS", op[0]) && atoi(op + 1) == dying_win;
   if(own) ;
   else if(op[0] == 'b') { char t[24]; size_t n = strcspn(op, "."); if(n > 20) n = 20; memcpy(t, op, n); t[n] = 0; trace_op(t); }
   else if(op[0] != '-') trace_op(op);
@@ -248,7 +249,7 @@ static void w_op(const char *op, int depth)
         case 'e': h->cid = tickit_window_bind_event(W[i], TICKIT_WINDOW_ON_EXPOSE, 0, &on_wkey, h); break;
         case 'f': h->cid = tickit_window_bind_event(W[i], TICKIT_WINDOW_ON_FOCUS, 0, &on_wkey, h); break;
         case 'g': h->cid = tickit_window_bind_event(W[i], TICKIT_WINDOW_ON_GEOMCHANGE, 0, &on_wkey, h); break;
-        /* DESTROY handlers that make calls are not modelled: such cases are judged by the discipline on the trace only */
+        /* DESTROY handlers that make calls: in the model's variant fixedh (LifeDefs.v), outside the theorems */
         case 'd': h->cid = tickit_window_bind_event(W[i], TICKIT_WINDOW_ON_DESTROY, 0, &on_wdestroy_calls, h); break;
         default: printf("ERR handler-kind %s\n", op); fflush(stdout); _exit(0);
       }
